@@ -7,6 +7,8 @@ pub mod run;
 pub mod sched;
 pub mod c18;
 pub mod c_engine;
+pub mod c_fd;
+pub mod fd;
 pub mod e4;
 pub mod c01;
 pub mod c02;
@@ -21,6 +23,8 @@ pub fn dispatch(id: &str, ctx: &mut ev::Ctx) -> bool {
         "C06" => c_engine::run_c06(ctx),
         "C07" => c_engine::run_c07(ctx),
         "C08" => c_engine::run_c08(ctx),
+        "C16" => c_fd::run(ctx, "C16"),
+        "C17" => c_fd::run(ctx, "C17"),
         "C18" => c18::run(ctx),
         _ => return false,
     }
